@@ -66,10 +66,13 @@ Proof.
   intros k Hkx Hkp. rewrite lookup_insert_ne by congruence. rewrite lookup_delete_ne by congruence. reflexivity.
 Qed.
 
-(** An account is *due* at epoch [e]: 20-byte key, marked as lock
-    ([Until <> 0]) and [e >= Until]. *)
+(** An account is *due* at epoch [e]: 20-byte key, a lock account (it has
+    a parent) and [e >= Until]. *)
 Definition due (e : Z) (m : gmap bytes account) (k : bytes) : bool :=
-  hash_len k && negb (until (get_acc m k) =? 0) && (e >=? until (get_acc m k)).
+  hash_len k && is_lock (get_acc m k) && (e >=? until (get_acc m k)).
+
+Lemma is_lock_parent a b : parent a = parent b -> is_lock a = is_lock b.
+Proof. unfold is_lock. intros ->. reflexivity. Qed.
 
 Lemma due_present e m k : due e m k = true -> is_Some (m !! k).
 Proof.
@@ -89,14 +92,15 @@ Lemma epoch_visit_keep c e m0 m ns x m' ns' :
 Proof.
   unfold epoch_visit. simpl. intros H HI.
   destruct (negb (hash_len x)) eqn:Ex; [injection H as <- <-; exact HI|].
-  destruct (until (get_acc m x) =? 0) eqn:Eu; [injection H as <- <-; exact HI|].
+  destruct (negb (is_lock (get_acc m x))) eqn:Eu; [injection H as <- <-; exact HI|].
   destruct (e >=? until (get_acc m x)) eqn:Ee; [|injection H as <- <-; exact HI].
   destruct (transfer c m x (parent (get_acc m x)) (bal (get_acc m x)) true
               (unlock_details e) false false) as [[[m2 r2] ns2]|] eqn:Et; simpl in H; [|discriminate].
   injection H as <- <-.
   intros k Hk.
   assert (Hkx : k <> x).
-  { intros ->. destruct (HI x Hk) as (Hu & _). unfold due in Hk. rewrite <- Hu in Hk.
+  { intros ->. destruct (HI x Hk) as (Hu & Hp & _). unfold due in Hk. rewrite <- Hu in Hk.
+    rewrite <- (is_lock_parent _ _ Hp) in Hk. apply negb_false_iff in Eu.
     rewrite Eu, Ee in Hk. apply negb_false_iff in Ex. rewrite Ex in Hk. discriminate. }
   destruct (transfer_other _ _ _ _ _ _ _ _ _ _ _ _ k Et Hkx) as (T1 & T2 & T3).
   destruct (HI k Hk) as (I1 & I2 & I3). repeat split; try congruence. lia.
@@ -181,7 +185,7 @@ Proof.
     assert (Hacc : get_acc m x = get_acc m0 x) by (unfold get_acc; rewrite Hx; reflexivity).
     unfold due in Hd. rewrite <- Hacc in Hd.
     apply andb_true_iff in Hd as [Hd Hd3]. apply andb_true_iff in Hd as [Hd1 Hd2].
-    rewrite Hd1 in H. simpl in H. apply negb_true_iff in Hd2. rewrite Hd2, Hd3 in H.
+    rewrite Hd1 in H. simpl in H. rewrite Hd2, Hd3 in H. simpl in H.
     destruct (transfer c m x (parent (get_acc m x)) (bal (get_acc m x)) true
                 (unlock_details e) false false) as [[[m2 r2] ns2]|] eqn:Et; simpl in H; [|discriminate].
     injection H as <- <-.
@@ -216,9 +220,11 @@ Proof.
     destruct (negb (hash_len x)) eqn:Ex; [injection H as <- <-; reflexivity|].
     pose proof (R3 x Hd) as Hacc.
     assert (Hu : until (get_acc m x) = until (get_acc m0 x)) by (rewrite Hacc; reflexivity).
-    unfold due in Hd. rewrite <- Hu in Hd. apply negb_false_iff in Ex. rewrite Ex in Hd. simpl in Hd.
-    destruct (until (get_acc m x) =? 0) eqn:Eu; [injection H as <- <-; reflexivity|].
-    simpl in Hd. rewrite Hd in H. injection H as <- <-. reflexivity.
+    assert (Hpa : parent (get_acc m x) = parent (get_acc m0 x)) by (rewrite Hacc; reflexivity).
+    unfold due in Hd. rewrite <- Hu, <- (is_lock_parent _ _ Hpa) in Hd.
+    apply negb_false_iff in Ex. rewrite Ex in Hd. simpl in Hd.
+    destruct (negb (is_lock (get_acc m x))) eqn:Eu; [injection H as <- <-; reflexivity|].
+    apply negb_false_iff in Eu. rewrite Eu in Hd. simpl in Hd. rewrite Hd in H. injection H as <- <-. reflexivity.
 Qed.
 
 Lemma fold_epoch_rel c e m0 l V m ns m' ns' :
